@@ -75,11 +75,11 @@ def _one(args):
     try:
         _copy_tree(repo, d)
         if e["kind"] in ("seed", "twinpatch"):
-            p = subprocess.run(["git", "apply", "--unsafe-paths", "--exclude=tests/*", "--exclude=inputs/*", "--exclude=outputs/*", "--directory=" + d, e["patch"]],
+            p = subprocess.run(["git", "apply", "--unsafe-paths", "--exclude=tests/*", "--exclude=inputs/*", "--exclude=outputs/*", "--exclude=*.md", "--directory=" + d, e["patch"]],
                                cwd="/", stdout=subprocess.PIPE, stderr=subprocess.STDOUT, text=True)
             if p.returncode != 0:
                 # patches are relative to the repo root: apply with patch(1) semantics through git in the scratch dir
-                q = subprocess.run("cd %s && git init -q . 2>/dev/null; git apply --exclude='tests/*' --exclude='inputs/*' --exclude='outputs/*' %s" % (d, e["patch"]), shell=True,
+                q = subprocess.run("cd %s && git init -q . 2>/dev/null; git apply --exclude='tests/*' --exclude='inputs/*' --exclude='outputs/*' --exclude='*.md' %s" % (d, e["patch"]), shell=True,
                                    stdout=subprocess.PIPE, stderr=subprocess.STDOUT, text=True)
                 if q.returncode != 0:
                     return dict(e, status="not-applicable", detail=q.stdout[-200:])
@@ -101,6 +101,10 @@ def _one(args):
         if e.get("rule") is None:
             return dict(e, status="silent" if code == 0 else "NOISY", detail={"exit": code, "rules": rules})
         fired = code == 1 and any(r.startswith(e["rule"]) or e["rule"].startswith(r.split(":")[0]) for r in rules)
+        if not fired and code == 2 and e.get("expect_undecided"):
+            # a seeded fault recorded at install time as beyond the analysis (a redesign it does not follow): the check must keep
+            # refusing to pass it - exit 2, never exit 0
+            return dict(e, status="seed-undecided", detail={"exit": code, "rules": rules})
         return dict(e, status="fired" if fired else ("fired-other-rule" if code == 1 else "MISSED"), detail={"exit": code, "rules": rules})
     finally:
         shutil.rmtree(d, ignore_errors=True)
@@ -122,7 +126,9 @@ def entries_for(pid):
             if os.path.exists(meta) and os.path.exists(patch):
                 mj = json.load(open(meta))
                 if pid in (None, mj.get("breaks_property")):
-                    out.append(dict(kind="seed", pid=mj["breaks_property"], patch=patch, rule=mj["breaks_property"], desc="seeded/%s" % name, file="", func=""))
+                    own = mj["breaks_property"]
+                    out.append(dict(kind="seed", pid=own, patch=patch, rule=own, desc="seeded/%s" % name, file="", func="",
+                                    expect_undecided=own in mj.get("undecided_by", ()) and own not in mj.get("detected_by", ())))
     td = os.path.join(VERIF, "twins")
     if os.path.isdir(td):
         for name in sorted(os.listdir(td)):
